@@ -535,6 +535,10 @@ func c01(c *core.Ctx, r *core.Report) {
 		r.Floor("returns after totals", n, 1)
 	})
 
+	rule(r, "C01.R16", "the figures the verdict and the summary read are the final totals: the function that takes the totals stores the unmodified result of Stats.Total in the result's snapshot exactly once on every path (no earlier state decides whether they are kept, nothing rewrites them on the way)", func() {
+		totalsStoredFaithfully(c, r)
+	})
+
 	rule(r, "C01.R8", "the dropped counter is only incremented by the constant 1 and loaded", func() {
 		n := 0
 		for _, op := range an.AtomicOps(c.AllFuncs) {
@@ -1210,4 +1214,84 @@ func bulkDropRecorder(c *core.Ctx, fn *ssa.Function) (*ssa.Parameter, string) {
 		return nil, sprintf("%d metric and %d progress recordings (expected one of each)", nMetric, nProgress)
 	}
 	return cnt, ""
+}
+
+// totalsStoredFaithfully implements C01.R16 (imported by C08 and C19): in every method of run.Result that takes the
+// final totals (calls Stats.Total, through helpers), the snapshot field of the result is stored exactly once on every
+// path, with the value Stats.Total returned — not with a copy edited on the way, and not under a condition on earlier
+// state (a "final" flag set by an earlier call would keep totals taken before the last iterations finished).
+func totalsStoredFaithfully(c *core.Ctx, r *core.Report) {
+	isTotal := func(_ ssa.CallInstruction, g *ssa.Function) bool { return isMethod(g, progressPkg, "Stats", "Total") }
+	resT, _ := c.Named("internal/run", "Result").Underlying().(*types.Struct)
+	if resT == nil {
+		r.Undecided("anchor", "-", "internal/run.Result is not a struct")
+		return
+	}
+	var snaps []*types.Var
+	for i := 0; i < resT.NumFields(); i++ {
+		if an.IsNamed(resT.Field(i).Type(), progressPkg, "Snapshot") {
+			snaps = append(snaps, resT.Field(i))
+		}
+	}
+	isSnap := func(f *types.Var) bool {
+		for _, s := range snaps {
+			if f != nil && an.SameField(f, s) {
+				return true
+			}
+		}
+		return false
+	}
+	isSnapStore := func(in ssa.Instruction) bool {
+		st, ok := in.(*ssa.Store)
+		return ok && isSnap(an.FieldOfAddr(st.Addr))
+	}
+	// the functions taking the totals: methods of Result reaching Stats.Total that no other such method calls
+	var takers []*ssa.Function
+	for _, fn := range c.AllFuncs {
+		if core.RelPkg(fn) != "internal/run" || fn.Parent() != nil || !isMethodOf(fn, core.ModPath+"/internal/run", "Result") {
+			continue
+		}
+		if len(an.FlatCalls(fn, flatDepth, isTotal)) > 0 || an.PassesFunc(fn, func(g *ssa.Function) bool { return isTotal(nil, g) }) {
+			takers = append(takers, fn)
+		}
+	}
+	inner := map[*ssa.Function]bool{}
+	for _, a := range takers {
+		for _, b := range takers {
+			if a != b && len(an.FlatCalls(a, flatDepth, func(_ ssa.CallInstruction, t *ssa.Function) bool { return t == b })) > 0 {
+				inner[b] = true
+			}
+		}
+	}
+	n := 0
+	for _, fn := range takers {
+		if inner[fn] {
+			continue
+		}
+		n++
+		key := core.FuncName(fn)
+		tot, ok := an.Total(an.PathCount(fn, an.InstrWeight(isSnapStore, flatDepth)), false)
+		r.Check(ok && tot.Lo == 1 && tot.Hi == 1, key+"#stored-once", c.Pos(fn.Pos()), "the totals are stored in the result's snapshot exactly once on every path", "the totals are stored in the result's snapshot "+tot.String()+" times per call: on some path the totals just taken are not what the verdict and the summary will read")
+		an.Flatten(fn, flatDepth, nil, func(e an.Event) {
+			st, isSt := e.Instr.(*ssa.Store)
+			if !isSt || !isSnap(an.FieldOfAddr(st.Addr)) {
+				return
+			}
+			v := an.EventFV(e, st.Val).Resolve(func(f *ssa.Function) bool { return core.RelPkg(f) != "internal/run" })
+			call, isCall := v.V.(*ssa.Call)
+			okV := isCall && isTotal(call, an.Callee(call))
+			if isCall && !okV && an.Callee(call) == nil && v.F != nil && v.F.Site != nil {
+				// `setSnapshot(stats.Total)`: the helper calls the function value it was handed
+				if p, isP := an.Strip(call.Call.Value).(*ssa.Parameter); isP && p.Parent() == v.F.Fn {
+					if idx := an.ParamIndex(p); idx >= 0 && idx < len(v.F.Site.Common().Args) {
+						if g := an.FuncValueOf(v.F.Site.Common().Args[idx]); g != nil && isTotal(nil, g) {
+							okV = true
+						}
+					}
+				}
+			}
+			r.Check(okV, key+"#stored-unmodified", an.Pos(c, st), "the value stored is what Stats.Total returned", "the snapshot is stored with "+an.D().Of(st.Val)+", not with the unmodified result of Stats.Total: the verdict and the summary are computed from figures other than the recorded totals")
+		})
+	}
+	r.Floor("functions taking the final totals", n, 1)
 }
